@@ -1,9 +1,9 @@
 #!/bin/bash
-# regression over every kept seeded change and every own sensitivity patch: each must make its check exit 1
+# regression over every kept seeded change and every own sensitivity patch: each must make its check exit 1 (/repo itself is not touched: scratch worktrees)
 cd /verif
 fail=0
 for d in seeded/*/; do
-  id=$(basename $d); prop=$(python3 -c "import json;print(json.load(open('$d/meta.json'))['breaks_property'])")
+  id=$(basename $d); prop=$(python3 -c "import json;m=json.load(open('$d/meta.json'));print(m.get('caught_by_check') or m['breaks_property'])")
   out=$(/verif/sim/try_mutant.sh /verif/$d/patch.diff $prop 2>&1)
   ex=$(echo "$out" | grep -o "exit=[0-9]*" | head -1)
   sigs=$(echo "$out" | grep "signature:" | sed 's/.*signature: //' | tr '\n' ' ')
@@ -18,6 +18,5 @@ for f in mutants/*.patch; do
   echo "own:$id $prop $ex $sigs"
   [ "$ex" = "exit=1" ] || fail=1
 done
-git -C /repo status --short | head -3
 rm -f /verif/replays/C*.json
 exit $fail
